@@ -41,13 +41,13 @@ import (
 	"fmt"
 	"io"
 	"net"
-	"reflect"
 	"sort"
 	"strings"
 	"testing"
 	"time"
 
 	"github.com/wi1dcard/fingerproxy/pkg/hack"
+	"verif/deep"
 	"verif/ev"
 	"verif/mc"
 	"verif/memnet"
@@ -241,7 +241,36 @@ func streams(thorough bool) (out []*streamT, bounds map[string]any) {
 			}
 		}
 	}
+	// F5: a connection that lives on after the hello: the first record stays what it was however many bytes
+	// follow it (totals around 2^16 and 2^17, where a 16-bit position in the stream would wrap)
+	for _, L := range []int{49, 512} {
+		for _, total := range []int{65535, 65536, 65537, 65536 + 5 + L, 70000, 131072, 131073 + L} {
+			for fill := 0; fill < 2; fill++ {
+				s := mkStream(22, 0x0303, L, L, 0, fill, "restricted")
+				extra := total - len(s.data)
+				tail := make([]byte, extra)
+				for i := range tail {
+					tail[i] = trailers[fill][i%len(trailers[fill])]
+				}
+				s.data = append(s.data, tail...)
+				s.Trail = extra
+				s.cuts = nil
+				set := map[int]bool{}
+				for _, k := range []int{0, 1, 5, 5 + L - 1, 5 + L, 5 + L + 1, 16384, 32768, 65535, 65536, 65537, 65536 + 5 + L - 1, 65536 + 5 + L, 65536 + 5 + L + 1, 131071, 131072, total} {
+					if k <= total {
+						set[k] = true
+					}
+				}
+				for k := range set {
+					s.cuts = append(s.cuts, k)
+				}
+				sort.Ints(s.cuts)
+				out = append(out, s)
+			}
+		}
+	}
 	bounds = map[string]any{
+		"F5_long_lived":          "records of 49 and 512 bytes followed by further traffic up to totals {65535,65536,65537,65536+5+L,70000,131072,131073+L}; cuts at the record boundary +-1, 16384, 32768, 2^16 +-1, 2^16+5+L +-1, 2^17 +-1",
 		"F1_short_records":       fmt.Sprintf("declared length 0..%d (type 22) / 0..%d (other types) x 0..8 trailing bytes x 3 content patterns, every cut position; record types %v x versions %04x (quick: full product for type 22; versions 0301/0303/0305 x trailing {0,4,8} x patterns {0,1} for the other types)", lmax22, lmaxOther, allTypes, allVersions),
 		"F3_long_records":        "declared length {255,256,257,1000,16383,16384,16385,18432} x trailing {0,8} x 3 patterns; cut positions restricted to 0..8, +-3 around 5+L and n, powers of two (stated bound of the design)",
 		"F4a_truncated":          "declared length {49,255,256,257,1000,16384,18432,18433,32767,32768,65530..65535} with 0..12 body bytes present, every cut",
@@ -287,9 +316,14 @@ func newRunner(s *streamT, scratch []byte) *runner {
 	return &runner{s: s, sc: sc, obj: hack.NewHijackClientHelloConn(sc), scratch: scratch}
 }
 
-func restoreRunner(s *streamT, k int, buf string, exp int64, scratch []byte) *runner {
+// restoreRunner drives an independent copy of the frozen object of a search node.
+func restoreRunner(s *streamT, k int, frozen *hack.HijackClientHelloConn, frozenConn *script, scratch []byte) *runner {
 	sc := &script{}
-	return &runner{s: s, k: k, sc: sc, obj: hack.VerifC04Restore(sc, []byte(buf), exp), scratch: scratch}
+	obj := deep.Clone(frozen)
+	if deep.ReplaceInterface(obj, frozenConn, sc) != 1 {
+		panic(mc.HarnessError{Msg: "the wrapper does not hold the wrapped connection in exactly one interface field"})
+	}
+	return &runner{s: s, k: k, sc: sc, obj: obj, scratch: scratch}
 }
 
 func (r *runner) buffer(n int) []byte {
@@ -455,8 +489,8 @@ func classify(v chref.Verdict, delivered, rec []byte, err error) *finding {
 
 type node struct {
 	k      int
-	exp    int64
-	buf    string
+	obj    *hack.HijackClientHelloConn // frozen copy of the object in this state (never driven, only copied again)
+	sc     *script                     // the scripted conn obj wraps
 	parent int32
 	via    op
 }
@@ -479,11 +513,11 @@ type searcher struct {
 	keybuf                               []byte
 }
 
-func (x *searcher) key(k int, exp int64, buf []byte) string {
+// key is the canonical state key: the stream offset and every field of the object, whatever fields it has.
+func (x *searcher) key(k int, obj *hack.HijackClientHelloConn) string {
 	kb := x.keybuf[:0]
 	kb = binary.LittleEndian.AppendUint64(kb, uint64(k))
-	kb = binary.LittleEndian.AppendUint64(kb, uint64(exp))
-	kb = append(kb, buf...)
+	kb = deep.Key(kb, obj)
 	x.keybuf = kb
 	return string(kb)
 }
@@ -523,8 +557,10 @@ func (x *searcher) violating() (n int64) {
 // reference verdict classes seen (for the non-triviality rule).
 func (x *searcher) explore(s *streamT) (classes int) {
 	n := len(s.data)
-	nodes := []node{{parent: -1}}
-	index := map[string]int32{x.key(0, 0, nil): 0}
+	rootConn := &script{}
+	root := hack.NewHijackClientHelloConn(rootConn)
+	nodes := []node{{parent: -1, obj: root, sc: rootConn}}
+	index := map[string]int32{x.key(0, root): 0}
 	perOffset := map[int]int64{0: 1}
 	limit := 8 * (len(s.cuts) + 2)
 	seenClass := map[string]bool{}
@@ -536,7 +572,7 @@ func (x *searcher) explore(s *streamT) (classes int) {
 		}
 		cur := nodes[qi]
 		step := func(ops ...op) {
-			r := restoreRunner(s, cur.k, cur.buf, cur.exp, x.scratch)
+			r := restoreRunner(s, cur.k, cur.obj, cur.sc, x.scratch)
 			for i, o := range ops {
 				f := r.do(o)
 				x.transitions++
@@ -553,11 +589,10 @@ func (x *searcher) explore(s *streamT) (classes int) {
 				if i > 0 {
 					continue // only the first op defines the successor state; the rest is the continuation of a get
 				}
-				buf, exp := r.obj.VerifC04Snapshot()
-				key := x.key(r.k, exp, buf)
+				key := x.key(r.k, r.obj)
 				if _, ok := index[key]; !ok {
 					index[key] = int32(len(nodes))
-					nodes = append(nodes, node{k: r.k, exp: exp, buf: string(buf), parent: int32(qi), via: o})
+					nodes = append(nodes, node{k: r.k, obj: deep.Clone(r.obj), sc: r.sc, parent: int32(qi), via: o})
 					perOffset[r.k]++
 					if perOffset[r.k] > x.maxStatesPerOffset {
 						x.maxStatesPerOffset = perOffset[r.k]
@@ -605,23 +640,6 @@ func runFresh(s *streamT, ops []op) (fs []*finding, classes []string) {
 
 // ---------------------------------------------------------------------------
 
-// structGuard checks that the snapshot used as the state key still covers the
-// whole struct: any new field would make "equal keys => equal futures" unproven.
-func structGuard() error {
-	t := reflect.TypeOf(hack.HijackClientHelloConn{})
-	want := map[string]bool{"tlsConn": true, "buf": true, "expectedLen": true, "VerboseLogFunc": true}
-	for i := 0; i < t.NumField(); i++ {
-		if !want[t.Field(i).Name] {
-			return fmt.Errorf("hack.HijackClientHelloConn has a field %q that the C04 state snapshot does not cover", t.Field(i).Name)
-		}
-		delete(want, t.Field(i).Name)
-	}
-	if len(want) != 0 {
-		return fmt.Errorf("hack.HijackClientHelloConn lost fields %v the C04 snapshot relies on", want)
-	}
-	return nil
-}
-
 func compositions(n int, visit func(parts []int)) {
 	var parts []int
 	var rec func(rem int)
@@ -650,17 +668,14 @@ func TestCheck(t *testing.T) {
 	}
 	tStart := time.Now()
 	deadline := tStart.Add(budget)
-	rep.Info["rule"] = "part A: explicit-state BFS on the real hack.HijackClientHelloConn; state key = (stream offset, bytes in buf, expectedLen) = whole private state; from every state: read(r) for every r allowed by the cut set (caller buffer r and r+3), (0,nil) read, EOF, timeout, GetClientHello; oracle = reference verdict (set of admissible outcomes) on the delivered prefix + pass-through of (n, err, bytes) + stability of the slice handed out. part A2: all 2^(n-1) segmentations of short streams on fresh objects. part B: real TLS clients through the wrapper into a real tls.Server and the real proxyserver, first flight cut at every position (thorough: every pair). distinct_nontrivial = stream feature signatures (type/version/declared length/bytes present/trailing/cut set) whose search met >= 2 reference verdict classes, plus distinct handshake cut-feature signatures (seam, client, where the cuts fall: header byte, hello body by power of two, last byte, record boundary, offset into the following record)"
+	rep.Info["rule"] = "part A: explicit-state BFS on the real hack.HijackClientHelloConn; state key = (stream offset, every field of the object by reflection) = whole private state; from every state: read(r) for every r allowed by the cut set (caller buffer r and r+3), (0,nil) read, EOF, timeout, GetClientHello; oracle = reference verdict (set of admissible outcomes) on the delivered prefix + pass-through of (n, err, bytes) + stability of the slice handed out. part A2: all 2^(n-1) segmentations of short streams on fresh objects. part B: real TLS clients through the wrapper into a real tls.Server and the real proxyserver, first flight cut at every position (thorough: every pair). distinct_nontrivial = stream feature signatures (type/version/declared length/bytes present/trailing/cut set) whose search met >= 2 reference verdict classes, plus distinct handshake cut-feature signatures (seam, client, where the cuts fall: header byte, hello body by power of two, last byte, record boundary, offset into the following record)"
 	rep.Assume(
-		"the private state of hack.HijackClientHelloConn is (wrapped conn, buf, expectedLen, VerboseLogFunc); checked by reflection at start-up, a new field is a harness error",
+		"states are copied and keyed by reflection over every field of hack.HijackClientHelloConn (verif/deep): func and interface values (the wrapped conn, the log func) are the environment and not part of the key; slices are keyed by the elements below len",
 		"a bytes.Buffer that was only written to and truncated behaves as a function of its contents (capacity is not observable through the wrapper)",
 		"reads that return n>0 together with an error are outside the alphabet (never produced by net.TCPConn; listed as not claimed in DESIGN.md §4)",
 		"part B: crypto/tls (go1.26.8) and utls 1.6.0 are the TLS clients; a handshake whose Finished messages verify proves the server's TLS layer saw the client's handshake bytes unmodified",
 	)
-	if err := structGuard(); err != nil {
-		rep.HarnessError("%v", err)
-		return
-	}
+	rep.Info["wrapper_fields_in_the_state_key"] = deep.Fields(&hack.HijackClientHelloConn{})
 	defer func() {
 		if r := recover(); r != nil {
 			if he, ok := r.(mc.HarnessError); ok {
